@@ -10,7 +10,7 @@ wt=/tmp/val-$name
 git -C /repo worktree remove --force $wt 2>/dev/null
 git -C /repo worktree add -q --detach $wt || exit 2
 export CARGO_NET_OFFLINE=true CARGO_TARGET_DIR=$wt/target
-cp "$d/demo.rs" $wt/crates/$crate/tests/seeded_demo.rs
+mkdir -p $wt/crates/$crate/tests; cp "$d/demo.rs" $wt/crates/$crate/tests/seeded_demo.rs
 if grep -q "^autotests = false" $wt/crates/$crate/Cargo.toml; then printf '\n[[test]]\nname = "seeded_demo"\n' >> $wt/crates/$crate/Cargo.toml; fi
 cd $wt
 echo "== demo without patch"
